@@ -1,6 +1,6 @@
 """C06 — interface-aware semantics differ from standard only at insensitive predicates."""
 from fractions import Fraction as Fr
-from rtverif import lang, drive, ref_bool, findings
+from rtverif import monitors, lang, drive, ref_bool, findings
 from rtverif import ref_discrete as refd
 from rtverif import ref_dense
 from rtverif.props.base import Prop, Verdict, fmt
@@ -301,7 +301,7 @@ class C06(Prop):
             except Exception as e:
                 v.bad('raises:' + type(e).__name__, '%s: flipped io raised %s' % (what, type(e).__name__))
                 return v
-            if repr(got2) != repr(got_raw):
+            if not monitors.same_num(got2, got_raw):
                 v.bad('standard-depends-on-io', '%s: result changes when the io types are flipped: %s vs %s' % (
                     what, repr(got_raw)[:200], repr(got2)[:200]))
         return v
